@@ -104,6 +104,8 @@ ThreadPool::ThreadPool(size_t n, size_t poolLoadMultiplier)
 #endif // DISPENSO_DEBUG
 
   size_t adjustedN = static_cast<size_t>(numThreads_);
+  ringsConstructed_.store(rings_.size(), std::memory_order_release);
+  stealRingsConstructed_.store(stealRings_.size(), std::memory_order_release);
   // Set up per-thread ring counts and wake state.
   if (adjustedN > 0) {
     numRings_.store(adjustedN, std::memory_order_release);
@@ -346,12 +348,14 @@ void ThreadPool::resizeLocked(ssize_t sn) {
   if (n > 0) {
     if (n > rings_.size()) {
       rings_.grow_by(n - rings_.size());
+      ringsConstructed_.store(rings_.size(), std::memory_order_release);
     }
     numRings_.store(n, std::memory_order_release);
 
     size_t newNumSteal = (n + stealRingSharing_ - 1) / stealRingSharing_;
     if (newNumSteal > stealRings_.size()) {
       stealRings_.grow_by(newNumSteal - stealRings_.size());
+      stealRingsConstructed_.store(stealRings_.size(), std::memory_order_release);
     }
     numStealRings_.store(newNumSteal, std::memory_order_release);
 
